@@ -106,6 +106,8 @@ type MakeCase struct {
 	Sub     string `json:"sub"`
 	Force   bool   `json:"force_query,omitempty"` // set URL.ForceQuery
 	Relpath bool   `json:"rel_path,omitempty"`    // drop the leading slash of URL.Path
+	Opaque  string `json:"opaque,omitempty"`      // set URL.Opaque (a hand-built value; url.Parse never sets it together with Host)
+	Frag    string `json:"frag,omitempty"`        // set URL.Fragment
 }
 
 var subMake = ev.Register("make", func(c MakeCase) error {
@@ -138,6 +140,12 @@ var subMake = ev.Register("make", func(c MakeCase) error {
 	if c.Relpath {
 		u.Path = strings.TrimPrefix(u.Path, "/")
 		u.RawPath = ""
+	}
+	if c.Opaque != "" {
+		u.Opaque = c.Opaque
+	}
+	if c.Frag != "" {
+		u.Fragment = c.Frag
 	}
 	before := *u
 	v, err := sourceaddrs.MakeRemoteSource(c.Type, u, c.Sub)
@@ -176,7 +184,7 @@ func typeMatches(c MakeCase) bool {
 	if c.Relpath {
 		return false
 	}
-	if c.User != "" || c.Scheme != "" || c.Query != "-" || c.Path != "-" {
+	if c.User != "" || c.Scheme != "" || c.Query != "-" || c.Path != "-" || c.Opaque != "" || c.Frag != "" {
 		return false
 	}
 	switch c.Sub {
@@ -271,7 +279,11 @@ func TestPropMake(t *testing.T) {
 		// edit one field (sometimes two, sometimes none)
 		nEdits := rapid.SampledFrom([]int{0, 1, 1, 1, 1, 2}).Draw(t, "nedits")
 		for i := 0; i < nEdits; i++ {
-			switch rapid.SampledFrom([]string{"type", "user", "scheme", "query", "path", "sub"}).Draw(t, "edit") {
+			switch rapid.SampledFrom([]string{"type", "user", "scheme", "query", "path", "sub", "opaque", "frag", "query"}).Draw(t, "edit") {
+			case "opaque":
+				c.Opaque = rapid.SampledFrom([]string{"//user:secret@example.com/repo.git", "//example.com/repo.git?sshkey=x", "//example.com/pkg.zip", "/no/host.tgz", "opaque"}).Draw(t, "opaque")
+			case "frag":
+				c.Frag = rapid.SampledFrom([]string{"frag", "a//b", "?x"}).Draw(t, "frag")
 			case "type":
 				c.Type = rapid.SampledFrom([]string{"git", "https", "http", "GIT", "Https", "hg", "", "s3", "ssh"}).Draw(t, "type")
 			case "user":
@@ -280,7 +292,7 @@ func TestPropMake(t *testing.T) {
 				c.Scheme = rapid.SampledFrom([]string{"http", "git", "HTTPS", "ssh", "file", "ftp", "https"}).Draw(t, "scheme")
 			case "query":
 				c.Query = rapid.SampledFrom([]string{"", "ref=main", "ref=a&ref=b", "depth=1", "checksum=md5:1", "archive=zip", "archive=tgz", "archive=tar.gz", "archive=tgz&archive=tgz", "ref=a;depth=1",
-					"%zz", "sshkey=x&ref=y", "checksum=1;x=2", "archive=tgz;checksum=1", "ref=v1&Ref=v2", "x=1"}).Draw(t, "query")
+					"%zz", "sshkey=x&ref=y", "checksum=1;x=2", "archive=tgz;checksum=1", "ref=v1&Ref=v2", "x=1", "a=b#c", "ref=v1#frag", "archive=tgz#x", "archive=tgz&checksum=sha256:abc"}).Draw(t, "query")
 			case "path":
 				c.Path = rapid.SampledFrom([]string{"/repo.git", "/a//b.tgz", "/pkg.zip", "", "/x.tar.gz", "/with space.tgz", "/a/../b.tgz", "//x.tgz"}).Draw(t, "path")
 			case "sub":
